@@ -13,6 +13,14 @@ CHECKS = {
    technique="deterministic simulation: real forked processes stepped at every DB-API call by a seeded scheduler, with crash (SIGKILL) / stall / I/O-error / restart / linger faults and a virtual busy-timeout clock; invariants on identifiers checked online and on the final table",
    text="Seeded search over interleavings and fault sequences of 2-4 real OS processes creating sessions on one SQLite file; every run is one exactly replayable schedule. Sampling, not proof: a clean batch is evidence for the explored interleavings only.",
    note="Trusted: the DB-API seam (sqlite3 Connection/Cursor subclasses), the virtual re-implementation of SQLite's busy handler, tmpfs as the file system. Not covered: other database back ends, several hosts."),
+ "C17": dict(engine="histsim", category="exploration", ref="4.3",
+   technique="deterministic simulation of API-call histories: seeded sequences of rename/reload/query/disassemble operations on one DEX object, checked step by step against a dictionary reference model, with delta-debugging minimisation and exact replay",
+   text="Seeded search over histories (length 1-30) on generated DEX files built to share names and on corpus files; every item and every const-string is compared with the model. Sampling, not proof.",
+   note="Trusted: gen/dexasm.py (self-checked), the pristine parse as source of initial names. No fault dimension exists for this property."),
+ "C16": dict(engine="histsim", category="exploration", ref="4.4",
+   technique="deterministic simulation of API-call histories: seeded class models split into 1-4 DEX files, every add order with interleaved queries, create_xref once; name-based summary compared tuple by tuple with the single-DEX reference analysis",
+   text="Seeded search over (model, partition, add order, interleaved queries); all permutations for k<=3. Real multi-DEX APKs cover the order half. Sampling, not proof.",
+   note="Trusted: gen/dexasm.py (self-checked against the parser; identical code bytes in single and split builds). Reference = single-DEX analysis by the same code."),
 }
 
 def build():
@@ -47,6 +55,8 @@ def build():
         "engines": [
             {"name": "procsim", "path": "simkit/procsim.py", "serves_properties": ["C36"],
              "kind_free_text": "deterministic simulation of real OS processes over one SQLite file, seeded scheduler + fault injection"},
+            {"name": "histsim", "path": "simkit/driver.py", "serves_properties": ["C16", "C17"],
+             "kind_free_text": "seeded API-call history search against a reference model, ddmin minimisation, exact replay"},
         ],
         "checks": checks,
         "not_applicable": na,
